@@ -10,6 +10,7 @@ pub fn run(which: &str) {
         "c02_values" => crate::c02::run(),
         "c20_history" => crate::c20::run(),
         "c05_fee" => crate::c05::run(),
+        "c08_redeemers" => crate::c08::run(),
         _ => panic!("unknown scenario {which}"),
     }
 }
